@@ -33,9 +33,9 @@ def build_tonl(sc, sid):
             u, ctx = c["use"], c["ctx"]
             sp = c.get("sp", "direct")
             spells.add(sp)
-            TT = {"direct": q + "TT", "alias": "TA", "alias3": "q.TA", "ptralias": "TP", "rename": "dd.TT" if pkg != "d" else "TT",
-                  "paren": "(" + q + "TT)"}[sp]
-            PTT = "TP" if sp == "ptralias" else "*" + TT
+            TT = {"direct": q + "TT", "alias": "TA", "alias3": "q.TA", "chain": "TA2", "ptralias": "TP", "ptrchain": "TH", "ptrofalias": "TPA",
+                  "rename": "dd.TT" if pkg != "d" else "TT", "paren": "(" + q + "TT)"}[sp]
+            PTT = TT if sp.startswith("ptr") else "*" + TT
             key = (fidx, cidx)
             doc = ["// @testonly"] if ctx in ("tofunc", "tometh") else []
             params = ""
@@ -91,10 +91,16 @@ def build_tonl(sc, sid):
         files.append(out)
     h = Out("%s/zz_handles.go" % pkg, pkg)
     h.add("// H is a local receiver type.", "type H struct{}", "", "var gs %sS" % q, "")
-    if "alias" in spells:
+    if spells & {"alias", "chain", "ptrofalias"}:
         h.add("type TA = %sTT" % q, "")
-    if "ptralias" in spells:
+    if "chain" in spells:
+        h.add("type TA2 = TA", "")
+    if spells & {"ptralias", "ptrchain"}:
         h.add("type TP = *%sTT" % q, "")
+    if "ptrchain" in spells:
+        h.add("type TH = TP", "")
+    if "ptrofalias" in spells:
+        h.add("type TPA = *TA", "")
     for t in extra_types:
         h.add(t, "")
     files.append(h)
